@@ -47,7 +47,7 @@ theorem delete_unfold (cmp : K → K → Int) (h : Heap K V) (k : K) {curr idx :
   unfold Heap.delete
   simp only [bind, pure, hd, Option.bind_some]
   cases found with
-  | false => simp
+  | false => simp [Gen.Tree.deleteMissReturnsFirst]  -- `if curr.leaf() { return }` comes first
   | true =>
     have hx' : (bumpDel h).get curr = some xs := hx
     simp only [bumpDel] at hx'
@@ -64,8 +64,10 @@ theorem finish_root_false {id : Nat} {kvs : List (K × V)} {kids : List (Node K 
     simp only [hrc, if_true] at h
     split at h
     · split at h
+      · split at h
+        · cases h; rfl
+        · cases h
       · cases h; rfl
-      · cases h
     · cases h; rfl
 
 theorem del_root_false (cmp : K → K → Int) (k : K) {id : Nat} {kvs : List (K × V)} {kids : List (Node K V)}
@@ -119,7 +121,7 @@ theorem delete_sim (cmp : K → K → Int) {h : Heap K V} {t : Tree K V} (hrel :
   | crash => rw [hres] at hsim; exact hsim.elim
   | absent =>
     rw [hres] at hsim hdel
-    simp only [Option.some.injEq] at hdel
+    simp only [Gen.Tree.deleteMissReturnsFirst, if_true, Option.some.injEq] at hdel
     subst hdel
     simp only [DelSim] at hsim
     obtain ⟨curr, idx, hdesc⟩ := hsim
